@@ -6,10 +6,15 @@ to_dict walks (shared with C13), and the run-time fields it does write are compa
 reset_initial_values.
 """
 import ast
+import copy
+import re
+
+import sympy as sp
 
 from ..src import walk, calls, call_name, last_attr, dotted, norm, loc, const, AnchorError, ExtractError, parent, unparse
 from ..effects import Universe, writes
 from ..peval import Evaluator, Obj, Unknown, Raised
+from ..symx import SymExec, State, Opaque
 from .c13 import ClassTable, backing_fields, exclusion_list, only_raises
 
 CORE = "wntr/sim/core.py"
@@ -38,14 +43,23 @@ EXPLANATION = (
     "reachable from a simulator or made by _Skeletonize.__init__ is restored from a saved copy on every path; (R-C11-3) every run-time field a "
     "run writes on an element kind is assigned by reset_initial_values in the loop over that kind, with the value construction establishes "
     "(initial_status, initial_setting, Active, init_level + elevation, False, None, 0), and every control is _reset(), which restores condition "
-    "state and recurses through And/Or. Decides the write-set and reset-coverage clauses, not bit-for-bit reproducibility.")
+    "state and recurses through And/Or; (R-C11-1c) reset_initial_values itself, executed symbolically on one instance of every element class "
+    "(property stores run the setter), assigns run-time fields only: a definition property it assigns is one a run is expected to change, and "
+    "an assignment from the property's own backing field is a no-op; (R-C11-4) for every run-time field R that reset_initial_values derives from "
+    "definition fields (R = f(D): _user_status, _setting, _head, _prev_head), every public property setter that writes one of those definition "
+    "fields is executed symbolically on every path, then the run-start re-derivation (update_network_previous_values, only if run_sim calls it "
+    "whenever sim_time == 0) and then the reset body: the reset must leave R unchanged, i.e. the state the first run starts from after an edit "
+    "equals the state after reset_initial_values. Decides the write-set and reset-coverage clauses, not bit-for-bit reproducibility.")
 RULE_TEXT = ("one instance = one (function, receiver, attribute) write site, one resolved setattr target, one options store, or one "
-             "(element kind, run-time field) reset obligation; distinct = distinct constructs")
+             "(element kind, run-time field) reset obligation, one element class whose reset writes are all run-time fields, or one "
+             "(setter, run-time field derived from it by the reset) agreement; distinct = distinct constructs")
 ASSUMPTIONS = [
     "call resolution is by name and receiver convention (no type checker offline); calls through unresolved receivers are counted in the evidence (bound 12 %)",
     "attribute strings taken from INP [RULES] text at run time are assumed to be in {status, setting}",
     "property getters are not followed as calls, except the ones listed as caches (HeadPump.get_head_curve_coefficients is a method and is followed)",
     "constructors of new objects (and whatever they call on the new object) are not model mutations",
+    "R-C11-4 covers public property setters (the documented way to edit a definition field); other public methods that assign a definition field "
+    "and the agreement of the constructors with the reset values are not decided",
 ]
 
 CACHES = {
@@ -411,6 +425,289 @@ def reset_table(repo):
     return rs, reset
 
 
+# ------------------------------------------------------------------ symbolic element instances (R-C11-1c, R-C11-4)
+class _Inst(object):
+    """one element object of class `cname` with symbolic fields: fields[x] is the value stored so far, an unwritten field x reads as the symbol self.x"""
+
+    def __init__(self, cname):
+        self.cname = cname
+        self.fields = {}
+        self.log = []                # field names in the order they were written
+        self.prop_stores = []        # (public property assigned, backing fields it wrote, was every one of them a no-op)
+
+    def get(self, fld):
+        return self.fields[fld] if fld in self.fields else Opaque("self." + fld)
+
+
+def fields_in(v):
+    """names of the symbolic fields self.x a value depends on."""
+    if isinstance(v, Opaque):
+        txt = v.text
+    elif isinstance(v, sp.Basic):
+        txt = " ".join(str(x) for x in v.free_symbols)
+    elif isinstance(v, (list, tuple)):
+        return set().union(*[fields_in(x) for x in v]) if v else set()
+    else:
+        return set()
+    return set(re.findall(r"\bself\.(\w+)", txt))
+
+
+class ElemExec(SymExec):
+    """SymExec over methods of element classes: `x.prop` on an _Inst is the value its getter returns, `x.prop = v` runs the setter
+    (every path of it), `x._f = v` updates the symbolic field, isinstance(x, Cls) is decided from the class table."""
+
+    def __init__(self, ct):
+        SymExec.__init__(self, call_hook=self._call, attr_hook=self._attr)
+        self.ct = ct
+        self._pub = {}
+        self.depth = 0
+
+    def props(self, cname):
+        if cname not in self._pub:
+            self._pub[cname] = {k: v for k, v in self.ct.public(cname).items() if v["kind"] == "prop"}
+        return self._pub[cname]
+
+    def _call(self, name, n, args, kwargs, st, ex, recv):
+        if name == "isinstance" and len(args) == 2 and isinstance(args[0], _Inst) and isinstance(n.args[1], (ast.Name, ast.Tuple)):
+            names = [e.id for e in (n.args[1].elts if isinstance(n.args[1], ast.Tuple) else [n.args[1]]) if isinstance(e, ast.Name)]
+            return any(nm in self.ct.mro(args[0].cname) for nm in names)
+        return NotImplemented
+
+    def _attr(self, base, attr, st):
+        if not isinstance(base, _Inst):
+            return NotImplemented
+        if attr in base.fields:
+            return base.fields[attr]
+        info = self.props(base.cname).get(attr)
+        if info is not None and info.get("getter") is not None:
+            if self.depth > 6:
+                raise ExtractError("property recursion at %s.%s" % (base.cname, attr))
+            self.depth += 1
+            try:
+                sub = State({"self": base})
+                outs = [o for o in self.block(info["getter"].body, [sub]) if o.raised is None]
+            finally:
+                self.depth -= 1
+            uniq = []
+            for o in outs:
+                if not any(self.same(o.ret, u) for u in uniq):
+                    uniq.append(o.ret)
+            if len(uniq) != 1:
+                raise ExtractError("getter %s.%s returns %d distinct values on its paths" % (base.cname, attr, len(uniq)))
+            return uniq[0]
+        return Opaque("self." + attr)
+
+    def text(self, v):
+        if isinstance(v, _Inst):
+            return "self"
+        return SymExec.text(self, v)
+
+    def stmt(self, s, st):
+        # `x.prop = v` with x an element instance and prop a property: run the setter on every path
+        if isinstance(s, ast.Assign) and len(s.targets) == 1 and isinstance(s.targets[0], ast.Attribute):
+            t = s.targets[0]
+            base = self.ev(t.value, st)
+            if isinstance(base, _Inst) and t.attr in self.props(base.cname):
+                setter = self.props(base.cname)[t.attr].get("setter")
+                if setter is None:
+                    raise ExtractError("assignment to the read-only property %s.%s" % (base.cname, t.attr))
+                v = self.ev(s.value, st)
+                before, nlog = dict(base.fields), len(base.log)
+                params = [a.arg for a in setter.args.args]
+                if len(params) != 2 or self.depth > 6:
+                    raise ExtractError("setter %s.%s not evaluable" % (base.cname, t.attr))
+                sub = st.fork()                                   # deep copy keeps x and the caller's variables one object graph
+                inst = self.ev(t.value, sub)
+                sub.env = {params[0]: inst, params[1]: v, "__caller__": sub.env}
+                self.depth += 1
+                try:
+                    outs = self.block(setter.body, [sub])
+                finally:
+                    self.depth -= 1
+                res = []
+                for o in outs:
+                    inst_o = o.env[params[0]]
+                    o.env = o.env["__caller__"]
+                    if o.raised is None:
+                        o.done = False
+                        o.ret = None
+                        wrote = sorted(set(inst_o.log[nlog:]))
+                        noop = bool(wrote) and all(self.same(inst_o.fields[k], before.get(k, Opaque("self." + k))) for k in wrote)
+                        inst_o.prop_stores.append((t.attr, wrote, noop))
+                    res.append(o)
+                return res
+        return SymExec.stmt(self, s, st)
+
+    def assign(self, t, v, st, stmt=None):
+        if isinstance(t, ast.Attribute):
+            base = self.ev(t.value, st)
+            if isinstance(base, _Inst):
+                if t.attr in self.props(base.cname):
+                    raise ExtractError("property store %s.%s in an unsupported position (line %s)" % (base.cname, t.attr, getattr(stmt, "lineno", "?")))
+                base.fields[t.attr] = v
+                base.log.append(t.attr)
+                return
+        return SymExec.assign(self, t, v, st, stmt)
+
+
+def _kind_loops(fnode):
+    """top-level `for .., x in <recv>.<kind>(Cls?)` loops of a function: [(loop, target name, element classes)]"""
+    out = []
+    for n in fnode.body:
+        if isinstance(n, ast.For) and isinstance(n.iter, ast.Call) and isinstance(n.iter.func, ast.Attribute) and n.iter.func.attr in KIND_OF_ITER:
+            if n.iter.args and isinstance(n.iter.args[0], ast.Name):
+                classes_ = RESET_KIND.get(n.iter.args[0].id, [n.iter.args[0].id])
+            else:
+                classes_ = KIND_OF_ITER[n.iter.func.attr]
+            tg = n.target.elts[-1] if isinstance(n.target, ast.Tuple) else n.target
+            if isinstance(tg, ast.Name):
+                out.append((n, tg.id, list(classes_)))
+    return out
+
+
+def apply_loops(ex, loops, inst):
+    """run the bodies of the loops that range over inst's class on it, in order -> the instances at the end of every (non-raising) path"""
+    insts = [inst]
+    for loop, tg, classes_ in loops:
+        if inst.cname not in classes_:
+            continue
+        nxt = []
+        for i in insts:
+            st = State({tg: i})
+            for o in ex.block(loop.body, [st]):
+                if o.raised is None:
+                    nxt.append(o.env[tg])
+        insts = nxt
+    return insts
+
+
+def run_start_normaliser(repo):
+    """loops of update_network_previous_values, if WNTRSimulator.run_sim calls it on every path whenever it starts at sim_time == 0 (the state
+    reset and construction leave): what it assigns is re-derived before a run reads it.  Decided by executing the part of run_sim before its
+    main loop symbolically with sim_time bound to 0."""
+    if not (repo.has_func(HYD, "update_network_previous_values") and repo.has_func(CORE, "WNTRSimulator.run_sim")):
+        return None, []
+    rs = repo.func(CORE, "WNTRSimulator.run_sim")
+    prefix = []
+    for st_ in rs.body:
+        if isinstance(st_, (ast.While, ast.For)):
+            break
+        prefix.append(st_)
+
+    def attr(base, name, st):
+        return 0 if name == "sim_time" else NotImplemented
+
+    def call(name, n, args, kwargs, st, ex, recv):
+        if name == "bool" and len(args) == 1 and isinstance(args[0], bool):
+            return args[0]
+        return NotImplemented
+
+    ex = SymExec(attr_hook=attr, call_hook=call)
+    ex.MAX_PATHS = 512
+    outs = [o for o in ex.block(prefix, [State({"self": Opaque("self")})]) if o.raised is None and o.done is not True]
+    if outs and all(any("update_network_previous_values(" in e[1] for e in o.calls()) for o in outs):
+        fn = repo.func(HYD, "update_network_previous_values")
+        return fn, _kind_loops(fn)
+    return None, []
+
+
+def setter_reset_agreement(repo, chk, ct, D):
+    """R-C11-1c and R-C11-4 (see EXPLANATION)."""
+    rs = repo.func(MODEL, "WaterNetworkModel.reset_initial_values")
+    ex = ElemExec(ct)
+    rloops = _kind_loops(rs)
+    nfn, nloops = run_start_normaliser(repo)
+    if nfn is not None:
+        chk.fn(nfn)
+    results = {}        # (owner, prop, R) -> [ok, classes, detail, setter node]
+    for cn in ELEMENT_CLASSES:
+        if not any(cn in cl for _, _, cl in rloops):
+            continue
+        pristine = apply_loops(ex, rloops, _Inst(cn))
+        if len(pristine) != 1:
+            raise ExtractError("reset_initial_values: %d paths for a %s" % (len(pristine), cn))
+        pr = pristine[0]
+        # ---- R-C11-1c: the reset writes run-time fields only
+        bad_props = []
+        for prop, wrote, noop in pr.prop_stores:
+            if prop in D:
+                bad_props.append(prop)
+                chk.bad("R-C11-1c", "reset_initial_values assigns the definition property %s.%s" % (cn, prop), loc(rs),
+                        "%s.%s is %s and has no run-time twin, yet reset_initial_values assigns it: a run is expected to change it (ControlAction(obj, %r, v) "
+                        "does setattr(obj, %r, v)), which alters to_dict; %s" % (
+                            cn, prop, D[prop], prop, prop,
+                            ("the value assigned is the property's own backing field (%s), so the assignment is a no-op and the change also survives the reset"
+                             % ", ".join(wrote)) if noop else "the assignment itself changes the definition"),
+                        expected="reset_initial_values assigns run-time fields only (a run-time twin of %s restored from the definition)" % prop,
+                        found="%s <- %s" % (prop, ", ".join("%s = %s" % (w, ex.text(pr.get(w))) for w in wrote)))
+        for fld in sorted(pr.fields):
+            if fld in D and not any(fld in wrote for _, wrote, _ in pr.prop_stores):
+                bad_props.append(fld)
+                chk.bad("R-C11-1c", "reset_initial_values assigns the definition field %s.%s" % (cn, fld), loc(rs),
+                        "%s is %s" % (fld, D[fld]), found="%s = %s" % (fld, ex.text(pr.get(fld))))
+        if not bad_props:
+            chk.ok("R-C11-1c", "reset_initial_values assigns only run-time fields of %s" % cn, loc(rs))
+        # ---- R-C11-4: pairs R = f(definition fields)
+        pairs = {}
+        for R, v in pr.fields.items():
+            ins = fields_in(v)
+            if ins and R not in D and all(i in D for i in ins):
+                pairs[R] = ins
+        if not pairs:
+            continue
+        inputs = set().union(*pairs.values())
+        props = ex.props(cn)
+        by_field = {}         # input field -> public properties whose getter returns it
+        for pn, info in props.items():
+            if info.get("getter") is not None:
+                for b in backing_fields(info["getter"]):
+                    by_field.setdefault(b, set()).add(pn)
+        for pn, info in sorted(props.items()):
+            setter = info.get("setter")
+            if setter is None or only_raises(setter):
+                continue
+            direct = {a.attr for a in walk(setter) if isinstance(a, ast.Attribute) and isinstance(a.ctx, ast.Store) and unparse(a.value) == "self"}
+            direct |= {c.args[1].value for c in calls(setter) if isinstance(c.func, ast.Name) and c.func.id == "setattr" and len(c.args) == 3
+                       and isinstance(const(c.args[1]), str)}
+            if not (direct & inputs or direct & set(props)):
+                continue
+            params = [a.arg for a in setter.args.args]
+            if len(params) != 2:
+                raise ExtractError("setter %s.%s has an unexpected signature" % (cn, pn))
+            outs = ex.block(setter.body, [State({params[0]: _Inst(cn), params[1]: Opaque("value")})])
+            for o in outs:
+                if o.raised is not None:
+                    continue
+                post = o.env[params[0]]
+                touched = {k for k in post.fields if k in inputs}
+                if not touched:
+                    continue
+                for start in apply_loops(ex, nloops, copy.deepcopy(post)):
+                    for after in apply_loops(ex, rloops, copy.deepcopy(start)):
+                        for R, ins in sorted(pairs.items()):
+                            if not (ins & touched):
+                                continue
+                            same = ex.same(after.get(R), start.get(R))
+                            key = (info["cls"], pn, R)
+                            r = results.setdefault(key, [True, [], None, setter])
+                            if cn not in r[1]:
+                                r[1].append(cn)
+                            if not same and r[0]:
+                                r[0] = False
+                                r[2] = (cn, o.label(), ex.text(start.get(R)), ex.text(after.get(R)))
+    for (owner, pn, R), (ok, classes_, detail, setter) in sorted(results.items()):
+        rel = getattr(ct.classes[owner], "_rel", None) or (ELEM if owner in repo.classes(ELEM) else BASE)
+        chk.expect(ok, "R-C11-4", "the %s.%s setter keeps %s in step with reset_initial_values" % (owner, pn, R), loc(rel, setter),
+                   "after `obj.%s = v` the run-time field %s is %s, but reset_initial_values would set it to %s (%s%s): the first run starts from the "
+                   "old state and the run after reset_initial_values from the new one, so the two runs differ" % (
+                       (pn, R, detail[2], detail[3], detail[0], ", path " + detail[1] if detail[1] else "") if detail else (pn, R, "", "", "", "")),
+                   expected=detail[3] if detail else None, found=detail[2] if detail else None)
+    chk.sample({"rule": "R-C11-4", "pairs_checked": ["%s.%s -> %s (%s)" % (o, p_, R, ",".join(v[1])) for (o, p_, R), v in sorted(results.items())],
+                "run_start_normaliser": [unparse(l.iter) for l, _, _ in nloops]})
+    chk.floor("R-C11-1c", 10)
+    chk.floor("R-C11-4", 4)
+
+
 def run(repo, chk):
     ct = ClassTable(repo)
     D, RT, wn_rt = field_sets(repo, ct)
@@ -631,6 +928,9 @@ def run(repo, chk):
                        "%s._reset resets its condition" % cname, loc(CTRL, meths["_reset"]))
     chk.floor("R-C11-3", 30)
 
+    # ---------------------------------------------------------------- R-C11-1c / R-C11-4 reset vs definition setters
+    setter_reset_agreement(repo, chk, ct, D)
+
 
 _CHAIN = ("        self._private_attribute = attribute\n        if attribute == 'status':\n            self._private_attribute = '_user_status'\n"
           "        elif attribute == 'leak_status':\n            self._private_attribute = '_leak_status'\n"
@@ -677,6 +977,36 @@ WITNESSES = [
          new="        field = self._private_attribute\n        setattr(self._target_obj, field, self._value)\n", silent=True),
     dict(name="action-setattr-public-attribute", file=CTRL, old="        setattr(self._target_obj, self._private_attribute, self._value)\n",
          new="        field = self._attribute\n        setattr(self._target_obj, field, self._value)\n", rule="R-C11-1b"),
+    # R-C11-4: setters of definition fields keep the run-time twin that reset_initial_values derives from them in step
+    dict(name="initial-status-setter-leaves-current-status", file=BASE, old="        self._initial_status = status\n"
+         "        # the simulator starts from the current status: keep it in step (as Tank.init_level does for the head)\n        self._user_status = status\n",
+         new="        self._initial_status = status\n", rule="R-C11-4"),
+    dict(name="initial-setting-setter-leaves-current-setting", file=BASE, old="        self._initial_setting = setting\n        self._setting = setting\n",
+         new="        self._initial_setting = setting\n", rule="R-C11-4"),
+    dict(name="initial-setting-setter-syncs-on-one-branch-only", file=BASE, old="        self._initial_setting = setting\n        self._setting = setting\n",
+         new="        self._initial_setting = setting\n        if setting is not None:\n            self._setting = setting\n", rule="R-C11-4"),
+    dict(name="tank-elevation-setter-leaves-head", file=ELEM,
+         old="        self._head = self._elevation + self._init_level  # like the init_level setter: the tank starts at init_level\n", new="", rule="R-C11-4"),
+    dict(name="tank-init-level-setter-uses-old-level", file=ELEM, old="        self._init_level = value\n        self._head = self.elevation+self._init_level\n",
+         new="        self._head = self.elevation+self._init_level\n        self._init_level = value\n", rule="R-C11-4"),
+    dict(name="run-start-no-longer-rederives-prev-head", file=HYD, old="        tank._prev_head = tank.head\n", new="        pass\n", rule="R-C11-4"),
+    dict(name="run-start-rederivation-not-on-first-step", file=CORE, old="        if first_step:\n            wntr.sim.hydraulics.update_network_previous_values(self._wn)\n",
+         new="        if not first_step:\n            wntr.sim.hydraulics.update_network_previous_values(self._wn)\n", rule="R-C11-4"),
+    dict(name="first-step-flag-in-other-shape-preserving", file=CORE,
+         old="        if self._wn.sim_time == 0:\n            first_step = True\n        else:\n            first_step = False\n",
+         new="        first_step = bool(self._wn.sim_time == 0)\n", silent=True),
+    dict(name="setters-in-other-shapes-preserving", file=BASE, old="        self._initial_setting = setting\n        self._setting = setting\n",
+         new="        self._setting = self._initial_setting = setting\n",
+         also=[("        self._initial_status = status\n        # the simulator starts from the current status: keep it in step (as Tank.init_level does for the head)\n"
+                "        self._user_status = status\n",
+                "        new_status = status\n        self._user_status = new_status\n        self._initial_status = self._user_status\n")], silent=True),
+    dict(name="tank-setters-in-other-shapes-preserving", file=ELEM, old="        self._init_level = value\n        self._head = self.elevation+self._init_level\n",
+         new="        self._head = value + self._elevation\n        self._init_level = value\n",
+         also=[("        self._elevation = value\n        self._head = self._elevation + self._init_level  # like the init_level setter: the tank starts at init_level\n",
+                "        level = self.init_level\n        self._elevation = value\n        self.init_level = level\n")], silent=True),
+    # R-C11-1c: reset_initial_values writes run-time fields only
+    dict(name="reset-rewrites-tank-init-level", file=MODEL, old="            node._prev_head = node.head\n",
+         new="            node._prev_head = node.head\n            node.init_level = node.level\n", rule="R-C11-1c"),
     dict(name="simulator-internal-store-preserving", file=CORE, old="        self._report_timestep = self._wn.options.time.report_timestep\n",
          new="        self._report_timestep = self._wn.options.time.report_timestep\n        self._n_runs = 1\n", silent=True),
 ]
